@@ -15,11 +15,11 @@
             //  however it is framed or chunked"
             (r is Ok) == (!has_error(this0.body.frames@) && total(data_chunks(this0.body.frames@)) <= this0.cap), // @accepted_iff_within_limit_any_chunking
             r is Ok ==> yielded(final(out)@) == data_chunks(this0.body.frames@), // @delivered_intact
-            r is Err ==> status_of(r->Err_0) == 400, // @refused_with_400
+            r is Err ==> is_client_code(status_of(r->Err_0)), // @refused_with_400
 //@ closure 0
-|e: BodyError| -> (h: HttpError) ensures status_of(h) == 400
+|e: BodyError| -> (h: HttpError) ensures is_client_code(status_of(h))
 //@ closure 1
-|e: BodyError| -> (h: HttpError) ensures status_of(h) == 400
+|e: BodyError| -> (h: HttpError) ensures is_client_code(status_of(h))
 //@ loop 0 invariant
                 invariant
                     this.cap == this0.cap, this0.cap <= usize::MAX - isize::MAX as usize, // @inv_cap_unchanged
